@@ -897,6 +897,79 @@ pub fn f_pack(thorough: bool) -> Vec<Unit> {
     out
 }
 
+// ------------------------------------------------------------------------------------------ F-perm (C06)
+fn permutations(n: usize) -> Vec<Vec<usize>> {
+    fn rec(n: usize, cur: &mut Vec<usize>, out: &mut Vec<Vec<usize>>) {
+        if cur.len() == n { out.push(cur.clone()); return; }
+        for i in 0..n { if !cur.contains(&i) { cur.push(i); rec(n, cur, out); cur.pop(); } }
+    }
+    let mut out = vec![]; rec(n, &mut vec![], &mut out); out
+}
+fn remap_rels(p: &Prog, order: &[usize]) -> (Prog, Vec<usize>) {
+    // order[k] = index (in p) of the relation declared k-th in the result
+    let mut map = vec![0; p.rels.len()];
+    for (k, &old) in order.iter().enumerate() { map[old] = k; }
+    let mut q = p.clone();
+    q.rels = order.iter().map(|&o| p.rels[o].clone()).collect();
+    fn go(items: &mut Vec<BodyItem>, map: &[usize]) { for b in items.iter_mut() { match b { BodyItem::Atom(a) => a.rel = map[a.rel], BodyItem::Agg { rel, .. } | BodyItem::Neg { rel, .. } => *rel = map[*rel], BodyItem::Disj(al) => for a in al.iter_mut() { go(a, map) }, _ => {} } } }
+    for r in q.rules.iter_mut() { go(&mut r.body, &map); for h in r.heads.iter_mut() { if let HeadItem::H(h) = h { h.rel = map[h.rel]; } } }
+    (q, map)
+}
+fn only_var_atoms(r: &Rule) -> bool { r.body.iter().all(|b| matches!(b, BodyItem::Atom(a) if a.conds.is_empty() && a.args.iter().all(|x| matches!(x, Arg::Var(_))))) }
+
+/// syntactic variants of one logical program: every order of the rules, of the declarations, of the head
+/// clauses and of independent body clauses; adversarial variable and relation names; the constants renamed
+/// injectively into other column types
+pub fn f_perm(thorough: bool) -> Vec<Unit> {
+    let mut out = vec![];
+    for (i, u) in f_scc(thorough).into_iter().enumerate() { if i % (if thorough { 4 } else { 12 }) == 0 || u.tag == "scc-multihead" { out.push(u); } }
+    for (i, u) in f_shape(false).into_iter().enumerate() { if i % (if thorough { 40 } else { 160 }) == 0 { out.push(u); } }
+    for u in out.iter_mut() {
+        u.variants.truncate(1);
+        let base = u.variants[0].clone();
+        let p = base.prog.clone();
+        let mut vs = vec![base.clone()];
+        let nr = p.rules.len();
+        if nr <= 4 { for (k, pm) in permutations(nr).into_iter().enumerate().skip(1) {
+            let mut v = base.clone(); v.prog.rules = pm.iter().map(|&i| p.rules[i].clone()).collect(); v.label = format!("rules-permuted#{}", k); vs.push(v);
+        } }
+        // declarations: reversed and rotated
+        let nrel = p.rels.len();
+        for (label, order) in [("declarations-reversed", (0..nrel).rev().collect::<Vec<_>>()), ("declarations-rotated", (0..nrel).map(|i| (i + 1) % nrel).collect::<Vec<_>>())] {
+            let (q, map) = remap_rels(&p, &order);
+            let mut v = base.clone(); v.prog = q; v.rel_map = map; v.label = label.into(); vs.push(v);
+        }
+        // relation names: alphabetical order reversed (generated code sorts by name), and adversarial spellings
+        for (label, names) in [("relations-renamed-reverse-alphabet", (0..nrel).map(|i| format!("z{}", (b'z' - i as u8) as char)).collect::<Vec<_>>()),
+                               ("relations-renamed-prefixes", (0..nrel).map(|i| format!("r{}", "_".repeat(i + 1))).collect::<Vec<_>>())] {
+            let mut v = base.clone(); for (i, n) in names.iter().enumerate() { v.prog.rels[i].name = n.clone(); } v.label = label.into(); vs.push(v);
+        }
+        // variable names
+        for (label, names) in [("variables-single-letters", vec!["a", "b", "c", "d", "e", "f", "g", "h"]), ("variables-underscores", vec!["v", "v_", "_v", "v__", "__v", "v_0", "v0_", "_v0"]),
+                               ("variables-unicode", vec!["ä", "π", "变量", "ß", "ж", "λ", "é", "ø"])] {
+            let mut v = base.clone(); for (i, n) in names.iter().enumerate() { v.var_names.insert(i as Var, n.to_string()); } v.label = label.into(); vs.push(v);
+        }
+        // body clauses that only bind / join variables are mutually independent: every order
+        for (ri, r) in p.rules.iter().enumerate() {
+            if r.body.len() >= 2 && r.body.len() <= 3 && only_var_atoms(r) {
+                for (k, pm) in permutations(r.body.len()).into_iter().enumerate().skip(1) {
+                    let mut v = base.clone(); v.prog.rules[ri].body = pm.iter().map(|&i| r.body[i].clone()).collect(); v.label = format!("rule{}-body-permuted#{}", ri, k); vs.push(v);
+                }
+            }
+            if r.heads.len() >= 2 { let mut v = base.clone(); v.prog.rules[ri].heads.reverse(); v.label = format!("rule{}-heads-reversed", ri); vs.push(v); }
+        }
+        // injective renaming of the constants into other column types (programs without interpreted functions)
+        if !has_consts(&p) && p.rels.iter().all(|r| r.lat.is_none()) {
+            for ty in ["i64", "String", "Sym"] { for perm in 0..2 {
+                let mut v = base.clone(); v.generic = true; v.flags.push(format!("T={}", ty)); v.flags.push(format!("perm={}", perm)); v.label = format!("constants-renamed-into-{}#{}", ty, perm); vs.push(v);
+            } }
+        }
+        u.variants = vs;
+        u.tag = format!("perm:{}", u.tag);
+    }
+    out
+}
+
 pub fn units(family: &str, thorough: bool) -> Vec<Unit> {
     match family {
         "shape" => f_shape(thorough),
@@ -909,6 +982,7 @@ pub fn units(family: &str, thorough: bool) -> Vec<Unit> {
         "sugar" => f_sugar(thorough),
         "macro" => f_macro(thorough),
         "pack" | "packseg" => f_pack(thorough),
+        "perm" => f_perm(thorough),
         _ => panic!("unknown family {}", family),
     }
 }
